@@ -347,3 +347,59 @@ def run(facts, rep, floor=0, files=None):
             k_site += 1
     rep.floor(R, "operands of single-subtraction modular primitives", n, floor)
     return n
+
+
+def run_quotient_form(facts, rep):
+    """R-DEFFORM(quotient) [N]: the precomputed quotient of a multiplication operand is the EXACT floor(operand * 2^64 / q).
+    The lazy product's range (< 2q) rests on that exactness.  The assignment to the `quotient` field in
+    MultiplyU64ModOperand::set_quotient / new must take its value from an exact division: `divide_u128_u64_inplace` applied to
+    the two-word number [0, operand] with divisor `modulus.value()`, or a u128 `/`.  A value assembled from the Barrett ratio
+    `const_ratio` (floor(2^128 / q), itself rounded) is a recognised wrong form: operand * floor(2^128/q) >> 64 is one too
+    small for part of the operands of generic moduli, so the lazy product leaves [0, 2q) and the strict one returns a value
+    in [q, 2q)."""
+    RQ = "R-DEFFORM(quotient)"
+    rep.rule(RQ, "MultiplyU64ModOperand's quotient field is assigned from an exact 128-by-64 division of [0, operand] by the "
+             "modulus value, not assembled from the rounded Barrett ratio")
+    from facts import Defs
+    n = 0
+    for p in sorted(facts.hir):
+        if "MultiplyU64ModOperand" not in p or "::tests::" in p:
+            continue
+        body = facts.hir[p]
+        for x in walk(body):
+            if x.get("k") != "Assign":
+                continue
+            lhs = strip(x["lhs"])
+            if not (lhs.get("k") == "Field" and lhs.get("name") == "quotient"):
+                continue
+            n += 1
+            rep.fn(p)
+            key = "%s/quotient" % p
+            defs = Defs(body, facts)
+            cl = list(defs.closure(x["rhs"]))
+            # calls that wrote the local the value is taken from (out-parameters)
+            rl0 = root_local(x["rhs"])
+            if rl0:
+                for y in walk(body):
+                    if y.get("k") in ("Call", "MCall") and any((root_local(a) or (None,))[0] == rl0[0] for a in y.get("args", [])):
+                        cl.append(y)
+                        cl.extend(walk(y))
+            exact = any(y.get("k") == "Call" and (callee(y) or {}).get("name") in ("divide_u128_u64_inplace", "divide_uint_inplace")
+                        for y in cl) or any(y.get("k") == "Bin" and y.get("op") == "/" and "u128" in facts.ty(y) for y in cl)
+            ratio = any(y.get("k") == "MCall" and y.get("name") == "const_ratio" for y in cl)
+            if exact and not ratio:
+                divs = [y for y in cl if y.get("k") == "Call" and (callee(y) or {}).get("name") == "divide_u128_u64_inplace"]
+                by_mod = (not divs) or any(z.get("k") == "MCall" and z.get("name") == "value" for z in walk(divs[0]["args"][1]))
+                if by_mod:
+                    rep.ok(RQ, key, "quotient taken from an exact division by the modulus value", facts.loc(p, x),
+                           sample={"function": p})
+                else:
+                    rep.unresolved(RQ, key, "exact division, but the divisor is not recognisably the modulus value", facts.loc(p, x))
+            elif ratio:
+                rep.violation(RQ, key, "the quotient is assembled from `const_ratio` (floor(2^128 / q)) instead of an exact division of "
+                              "operand * 2^64 by q: the result is one too small for part of the operands, so the lazy product "
+                              "exceeds 2q and the strict product is not reduced", facts.loc(p, x))
+            else:
+                rep.unresolved(RQ, key, "the quotient's defining computation is not one of the recognised forms", facts.loc(p, x))
+    rep.floor(RQ, "assignments to MultiplyU64ModOperand::quotient", n, 1)
+    return n
